@@ -90,7 +90,7 @@ def check(pid, tier, seed):
         for r in recs:
             if r.get("e") == "Race" and addr is not None and abs(int(r["addr"], 16) - int(addr, 16)) < 4:
                 verdict.violation("thread[poll] payload race after isFinished()", "the starter saw isFinished() == true but its read of the callable's result is not "
-                                  "ordered after the callable's write (no happens-before edge through the finished flag)", {"component": "thread", "id": xid, "race": r})
+                                  "ordered after the callable's write (no happens-before edge through the finished flag)", {"component": "thread", "xid": xid, "id": xid, "race": r})
     drifts = []
     execs = {}
     for xid, recs in res.items():
@@ -120,7 +120,7 @@ def check(pid, tier, seed):
         nx = info.get("next") or {}
         b = info["events"][0]
         verdict.violation("thread[kind=%s,args=%s]@%s(a=%s)" % (b["a"], b["b"], nx.get("e"), nx.get("a")),
-                          {"matched": info["matched"], "next": nx}, {"component": "thread", "id": x, "events": info["events"]})
+                          {"matched": info["matched"], "next": nx}, {"component": "thread", "xid": x, "id": x, "events": info["events"]})
     distinct = len({json.dumps(e) for e in execs.values()})
     cov = {"states": len(g.states), "transitions": len(g.edges), "traces_validated_against_impl": len(execs),
            "samples": [{"id": x, "events": execs[x]} for x in list(execs)[:2]],
@@ -131,3 +131,20 @@ def check(pid, tier, seed):
     rc = verdict.finish()
     common.write_evidence(pid, tier, seed, "model_checking", cov, ASSUMPTIONS, time.time() - t0, len(verdict.violations))
     return rc
+
+
+TRACE_SPEC = ("ThreadStartTrace.tla", "ThreadStartTrace.cfg")
+
+
+def p_events(recs):
+    return [{"e": r["e"], "a": r.get("a", 0), "b": r.get("b", 0)} for r in recs if r.get("e") in P_EVENTS]
+
+
+def all_harnesses():
+    a, b = harness(), race_harness()
+    return {a.name: a, b.name: b}
+
+
+def replay(pid, path):
+    import sys
+    return common.replay(pid, path, sys.modules[__name__])
